@@ -125,13 +125,16 @@ fn pdf_expected_money(rep: &cgt_core::TaxReport) -> Vec<(Q, String)> {
         let label = cgt_format::format_tax_year(y.period.start_year());
         for (name, x) in [("net gain", y.net_gain), ("total gain", y.total_gain), ("total loss", y.total_loss), ("gross proceeds", y.gross_proceeds()), ("exemption", y.exempt_amount), ("taxable gain", y.taxable_gain(y.exempt_amount))] { v.push((q(x), format!("summary {label} {name}"))); }
     }
+    // quotients shown by the report (unit costs, unit prices, average costs) are computed values of the
+    // implementation: 28-digit decimal divisions; the figure shown is that value rounded to pence
+    let dq = |a: Decimal, b: Decimal| -> Q { if b.is_zero() { Q::zero() } else { a.checked_div(b).map(Q::from_dec).unwrap_or_else(|| Q::from_dec(a).div(&Q::from_dec(b))) } };
     for y in &rep.tax_years {
         for d in &y.disposals {
             let c = format!("{} {}", d.date, d.ticker);
             let gain = q(d.net_gain_or_loss());
             v.push((gain.abs(), format!("{c} header result")));
-            for m in &d.matches { if m.rule == cgt_core::MatchRule::Section104 { v.push((if m.quantity.is_zero() { Q::zero() } else { q(m.allowable_cost).div(&q(m.quantity)) }, format!("{c} Section 104 unit cost"))); } }
-            v.push((q(d.gross_proceeds).div(&q(d.quantity)), format!("{c} unit price")));
+            for m in &d.matches { if m.rule == cgt_core::MatchRule::Section104 { v.push((dq(m.allowable_cost, m.quantity), format!("{c} Section 104 unit cost"))); } }
+            v.push((dq(d.gross_proceeds, d.quantity), format!("{c} unit price")));
             v.push((q(d.gross_proceeds), format!("{c} gross proceeds")));
             let fees = q(d.gross_proceeds).sub(&q(d.proceeds));
             if fees.is_pos() { v.push((q(d.gross_proceeds), format!("{c} gross proceeds (net line)"))); v.push((fees, format!("{c} sale fees"))); v.push((q(d.proceeds), format!("{c} net proceeds"))); }
@@ -141,7 +144,7 @@ fn pdf_expected_money(rep: &cgt_core::TaxReport) -> Vec<(Q, String)> {
     }
     let mut hs: Vec<&cgt_core::Section104Holding> = rep.holdings.iter().filter(|h| h.quantity > Decimal::ZERO).collect();
     hs.sort_by(|a, b| a.ticker.cmp(&b.ticker));
-    for h in hs { v.push((q(h.total_cost).div(&q(h.quantity)), format!("holding {} average cost", h.ticker))); }
+    for h in hs { v.push((dq(h.total_cost, h.quantity), format!("holding {} average cost", h.ticker))); }
     let mut txs: Vec<&cgt_core::Transaction> = rep.transactions.iter().collect();
     txs.sort_by(|a, b| (a.date, &a.ticker).cmp(&(b.date, &b.ticker)));
     for t in txs.iter() { match &t.operation { cgt_core::Operation::Buy { price, fees, .. } | cgt_core::Operation::Sell { price, fees, .. } => { if price.is_gbp() { v.push((q(price.amount), format!("{} {} price", t.date, t.ticker))); } if fees.is_gbp() { v.push((q(fees.amount), format!("{} {} fees", t.date, t.ticker))); } } _ => {} } }
